@@ -7,6 +7,7 @@ import ecc_util as eu
 from ecc_util import Params
 
 NAMES = ["a.bin", "b.txt", "sub/c.dat", "sub/deep/d", "z", "\xfastart", "\xffy.bin", "end\xfa", "sp ace.txt", "caf\xe9.doc", "sub/e\xfe.x",
+         "back\\slash.bin", "win\\dir/f.txt",
          "x" * 40 + ".long", "n" * 130 + ".verylong", "dir with space/f", "0"]
 
 
@@ -27,6 +28,9 @@ def gen_params(rng, tool=None, small=False, erasures=None):
             P.erasures = True
             P.erasure_symbol = rng.choice([0, 0, 0x20])
         if P.well_formed():
+            if rng.random() < 0.3:
+                # header size an exact multiple of the stage-1 message size: a block then starts exactly at offset `--size`
+                P.size = P.k_of_rate(P.r1) * rng.randint(1, 3)
             return P
     return Params(tool=tool)
 
@@ -41,7 +45,7 @@ def gen_tree(rng, P, nfiles=None, maxsize=2000):
         nm = rng.choice(NAMES)
         if any(nm == q or q.startswith(nm + "/") or nm.startswith(q + "/") for q in tree):
             continue
-        sz = rng.choice([0, 1, k1 - 1, k1, k1 + 1, 2 * k1, P.size - 1, P.size, P.size + 1, P.size + k1, rng.randint(0, maxsize)])
+        sz = rng.choice([0, 1, k1 - 1, k1, k1 + 1, 2 * k1, P.size - 1, P.size, P.size + 1, P.size + k1, P.size + 3 * k1 + 7, rng.randint(0, maxsize)])
         sz = max(0, min(sz, maxsize))
         kind = rng.choice(["random", "random", "zeros", "text"])
         if kind == "zeros":
@@ -158,3 +162,16 @@ def within_capacity_damage(rng, P, tree, data, only_files=None):
         if out[p][:prot] != tree[p][:prot]:
             damaged.add(p)
     return out, damaged, hist
+
+
+def boundary_params(rng, P):
+    """directed: whole-file tool, `--size` an exact multiple of the stage-1 message size, stage-1 and stage-2 message sizes different;
+    returns (P, file size) with the file reaching well beyond the header"""
+    P.tool = "whole"
+    for _ in range(50):
+        P.r1, P.r2, P.r3 = rng.choice([0.3, 0.5, 0.25]), rng.choice([0.2, 0.1, 0.75]), rng.choice([0.1, 0.3])
+        if P.well_formed() and P.k_of_rate(P.r1) != P.k_of_rate(P.r2):
+            break
+    k1 = P.k_of_rate(P.r1)
+    P.size = k1 * rng.randint(1, 3)
+    return P, P.size + 2 * P.k_of_rate(P.r2) + rng.randint(1, k1)
